@@ -145,9 +145,13 @@ def run(ctx):
     importlib.import_module('props.c19').js_leg(ctx, THEOREM, 'order', 600 if ctx.tier == 'quick' else 60000)
     # how rbql-js sorts: the real stable_compare / compare_aggregation_keys / SortedWriter against JsSort.v and the reference stable sort
     importlib.import_module('props.jssort').run(ctx)
+    # recorded finding F4: a null ORDER BY key in rbql-js (KNOWN-FINDING while it reproduces)
+    importlib.import_module('props.nullkeys').run(ctx, THEOREM, 'C02')
 
 
 def replay(ctx, case):
+    if case.get('part') == 'nullkeys':
+        return importlib.import_module('props.nullkeys').replay(ctx, case, THEOREM, 'C02')
     if case.get('part') == 'jssort':
         return importlib.import_module('props.jssort').replay(ctx, {k: v for k, v in case.items() if k != 'part'})
     if case.get('impl') == 'js':
